@@ -110,6 +110,7 @@ def check_history_independence(ctx, module_names: typing.Iterable[str], rule_ali
   b = shape.check_no_process_state(ctx, fs, rule=rule_global, allowed=PROCESS_STATE_OK)
   b += shape.check_no_memo_decorators(ctx, fs, rule=rule_global)
   ctx.ok(rule_global, f"{len(names)} modules|no process-global state is written", "src/main/python/ttconv", f"{len(fs)} functions scanned; {a + b} tabled exceptions")
+  shape.check_pure_queries(ctx, [c for c in ctx.ix.classes.values() if c.module.name in names], summary=True)
   return len(fs)
 
 
